@@ -19,9 +19,13 @@ def make_shim(table):
     shim.LOADS = []         # (path, number of keeps completed before the load)
     shim.TABLE = table      # path -> value
 
+    def norm(p):
+        # a path is its sequence of non-empty segments
+        return "/" + "/".join(x for x in p.split("/") if x)
+
     def keep(path, fun, *a, **kw):
         v = fun(*a, **kw)
-        p = os.fspath(path) if not isinstance(path, str) else path
+        p = norm(os.fspath(path) if not isinstance(path, str) else path)
         shim.TABLE[p] = v
         shim.KEPT.append((p, canon(v)))
         return v
@@ -42,7 +46,7 @@ def make_shim(table):
         return deco
 
     def load(path):
-        p = os.fspath(path) if not isinstance(path, str) else path
+        p = norm(os.fspath(path) if not isinstance(path, str) else path)
         shim.LOADS.append((p, len(shim.KEPT)))
         if p not in shim.TABLE:
             raise RefLoadMissing(p)
